@@ -1,6 +1,7 @@
 package main
 
 import (
+	"bytes"
 	"crypto"
 	"crypto/ecdsa"
 	"crypto/rand"
@@ -181,6 +182,13 @@ func init() {
 			sig = append([]byte{0, 0}, exact...)
 		case "halfr":
 			sig = pad(rb, n)
+		case "ext255", "ext256", "ext512", "ext65536":
+			k := map[string]int{"ext255": 255, "ext256": 256, "ext512": 512, "ext65536": 65536}[rendering]
+			sig = append(append([]byte{}, exact...), bytes.Repeat([]byte{0x5a}, k)...)
+		case "lead256":
+			sig = append(make([]byte, 256), exact...)
+		case "twice":
+			sig = append(append([]byte{}, exact...), exact...)
 		default:
 			fatal("unknown rendering %q", rendering)
 		}
